@@ -178,6 +178,19 @@ VCpRange(r) ==
     ELSE IF ~r.requery THEN Rej("C08 re-querying the normalized path fails for a member-name character", <<r.lo, r.hi>>)
     ELSE Acc
 
+(* ---- a number literal against the document number written with the same text (C06) -------- *)
+\* Beyond 15 significant digits / 10^15 the value model abstains (NumBig): an implementation may read literals through binary64.
+\* One thing is pinned all the same, under the exact and under the binary64 reading alike: a literal and the number a JSON
+\* decoder makes of the SAME text denote the same number.  r.t: the text (must be a number literal of the grammar), r.cmp: the
+\* comparison operator between '@' and the literal, r.sel: whether the document number was selected.
+VSameText(r) ==
+    LET p == ParseNumber(r.t, 1)
+    IN  IF ~(p.ok /\ p.i = Len(r.t) + 1) THEN Rej("sametext: the text is not a number literal of the grammar", <<>>)
+        ELSE IF r.out # "ok" THEN Rej("C06 comparing a number literal with the document number of the same text raised", <<r.cls>>)
+        ELSE IF r.sel # (r.cmp \in {"==", "<=", ">="})
+        THEN Rej("C06 a number literal and the document number written with the same text do not compare as equal", <<r.cmp>>)
+        ELSE Acc
+
 (* ---- member-name shorthand over code-point ranges (C03 / C04) ------------------ *)
 \* r.lo..r.hi: a range of code points >= 128 on which compile() behaved uniformly when the code point stood as the FIRST and
 \* as a LATER character of a member-name shorthand ($.c  $.cb  $.ac  $..c  $[?@.c == 1]  $.a.c1): r.acc = "all" (every form
@@ -471,6 +484,7 @@ Verdict(r) ==
       [] r.op = "requery" -> VRequery(r)
       [] r.op = "cprange" -> VCpRange(r)
       [] r.op = "shrange" -> VShRange(r)
+      [] r.op = "sametext" -> VSameText(r)
       [] r.op = "total"   -> VTotal(r)
       [] r.op = "errpos"  -> VErrPos(r)
       [] r.op = "str"     -> VStr(r)
